@@ -54,6 +54,7 @@ Fixpoint le_bytes (n : nat) (v : N) : bytes :=
 Inductive NReason :=
 | NInvalidHardware | NAttMalformed | NConstraintsMalformed | NQuoteKind
 | NBadEnclaveIdentity | NRakHashMismatch | NInvalidAttSig | NFromFuture | NNotFresh
+| NHardwareMismatch | NUnknownVersion
 | NQuote (r : Reason).
 Inductive NRes (A : Type) := NOk (a : A) | NRej (r : NReason) | NNotModelled.
 Arguments NOk {A} a.
@@ -144,6 +145,37 @@ Definition cap_verify (NP : NPrims) (env : Env) (cfg0 : option TeeCfg) (ts : Z) 
     end
   end.
 
+(* ---------- the registry's use (go/registry/api/api.go:806-862, 632) ----------
+   VerifyNodeRuntimeEnclaveIDs is what the consensus registry application (RegisterNode, with
+   ctx.Now() = block time and ctx.LastHeight()) and the key manager application call. *)
+Definition Version : Type := (N * N * N)%type.
+Definition version_eqb (a b : Version) : bool :=
+  (fst (fst a) =? fst (fst b)) && (snd (fst a) =? snd (fst b)) && (snd a =? snd b).
+Record Deployment := mkDep { d_version : Version; d_tee : option Constraints (* cbor decoding of VersionInfo.TEE *) }.
+Record RegRuntime := mkRegRt { rr_hw : N; rr_deployments : list Deployment }.
+Record NodeRuntime := mkNodeRt { nr_version : Version; nr_tee : option CapTee }.
+
+Definition verify_enclave_ids (NP : NPrims) (env : Env) (cfg0 : option TeeCfg) (ts : Z) (height : N)
+           (node_id : bytes) (is261 : bool) (rt : NodeRuntime) (reg : RegRuntime) : NRes unit :=
+  let hw := match nr_tee rt with Some c => ct_hardware c | None => 0 end in
+  nchk hw =? rr_hw reg orelse NHardwareMismatch;
+  match nr_tee rt with
+  | None => NOk tt
+  | Some cap =>
+      match find (fun d => version_eqb (d_version d) (nr_version rt)) (rr_deployments reg) with
+      | None => NRej NUnknownVersion
+      | Some d => cap_verify NP env cfg0 ts height (d_tee d) node_id is261 cap
+      end
+  end.
+
+(* api.go:632: "err != nil && !isSanityCheck && !isGenesis" *)
+Definition register_tee_check (NP : NPrims) (env : Env) (cfg0 : option TeeCfg) (ts : Z) (height : N)
+           (node_id : bytes) (is261 : bool) (rt : NodeRuntime) (reg : RegRuntime) (is_genesis is_sanity : bool) : NRes unit :=
+  match verify_enclave_ids NP env cfg0 ts height node_id is261 rt reg with
+  | NRej r => if is_genesis || is_sanity then NOk tt else NRej r
+  | x => x
+  end.
+
 (* ---------- correspondence ---------- *)
 Record NTables := mkNTables {
   nt_pcs : Tables;
@@ -166,11 +198,22 @@ Definition nreason_code (r : NReason) : N :=
   match r with
   | NInvalidHardware => 100 | NAttMalformed => 101 | NConstraintsMalformed => 102 | NQuoteKind => 103
   | NBadEnclaveIdentity => 104 | NRakHashMismatch => 105 | NInvalidAttSig => 106 | NFromFuture => 107
-  | NNotFresh => 108 | NQuote r => reason_code r
+  | NNotFresh => 108 | NHardwareMismatch => 110 | NUnknownVersion => 111 | NQuote r => reason_code r
   end.
 (* 0 = accepted, 999 = not modelled *)
 Definition run_ncase (k : NCase) : N :=
   match cap_verify (nprims_of (nk_tables k)) (nk_env k) (nk_cfg k) (nk_ts k) (nk_height k) (nk_constraints k)
                    (nk_node_id k) (nk_is261 k) (nk_cap k) with
+  | NOk _ => 0 | NRej r => nreason_code r | NNotModelled => 999
+  end.
+
+(* registry-level case: the node-level case plus the runtime descriptor side *)
+Record RCase := mkRCase {
+  rk_node : NCase; rk_rt_hw : N; rk_node_version : Version; rk_deployments : list Deployment; rk_no_tee : bool }.
+Definition run_rcase (k : RCase) : N :=
+  let n := rk_node k in
+  match verify_enclave_ids (nprims_of (nk_tables n)) (nk_env n) (nk_cfg n) (nk_ts n) (nk_height n) (nk_node_id n) (nk_is261 n)
+          (mkNodeRt (rk_node_version k) (if rk_no_tee k then None else Some (nk_cap n)))
+          (mkRegRt (rk_rt_hw k) (rk_deployments k)) with
   | NOk _ => 0 | NRej r => nreason_code r | NNotModelled => 999
   end.
